@@ -147,7 +147,13 @@ var checks = map[string]struct {
 func newCtx(id, tier string) (*drivers.Ctx, func()) {
 	verif := os.Getenv("VERIF_DIR")
 	if verif == "" {
+		// the framework root is the parent of the directory holding this binary
 		verif = "/verif"
+		if exe, err := os.Executable(); err == nil {
+			if root := filepath.Dir(filepath.Dir(exe)); fileExists(filepath.Join(root, "MANIFEST.json")) {
+				verif = root
+			}
+		}
 	}
 	repo := os.Getenv("VERIF_REPO")
 	if repo == "" {
@@ -221,4 +227,9 @@ func cmdReplay(args []string) int {
 	ctx, cleanup := newCtx(id, "quick")
 	defer cleanup()
 	return drivers.Replay(dir, ctx, c.prep)
+}
+
+func fileExists(p string) bool {
+	_, err := os.Stat(p)
+	return err == nil
 }
